@@ -345,7 +345,7 @@ class World:
                 vs += ['hook_super', 'queryAdapter_super']
         return vs
 
-    def one_lookup(self, via, g, req, p, name):
+    def one_lookup(self, via, g, req, p, name, adm=()):
         """returns (value id found, extra mismatch text or None)"""
         if name == BADNAME:
             try:
@@ -359,7 +359,15 @@ class World:
         # a different default object on every call (defaults are returned by
         # identity and never cached), sometimes none at all
         k = rnd.randrange(len(DEFAULTS) + 1)
-        if k == len(DEFAULTS):
+        calling = via not in ('lookup', 'lookup_list', 'lookup_lazy',
+                              'lookup1')
+        hits = [a for a in adm if a != NONE and not self.val(a).ret_none]
+        if calling and hits and rnd.random() < 0.2:
+            # the caller's default happens to be the very object that is
+            # registered: a hit must still CALL it
+            self.dflt = self.val(rnd.choice(hits))
+            dargs = (self.dflt,)
+        elif k == len(DEFAULTS):
             self.dflt = None
             dargs = ()
         else:
@@ -410,7 +418,7 @@ class World:
             vs = [rnd.choice(vs)]
         for via in vs:
             evaluations += 1
-            got, bad = self.one_lookup(via, g, req, p, name)
+            got, bad = self.one_lookup(via, g, req, p, name, adm)
             if got == 'default':
                 # admissible: no adapter, or an adapter whose factory
                 # returns None
